@@ -41,6 +41,14 @@ func hDateCell(tag string) hDate {
 	return dt
 }
 
+// hBadDateCell is a symbolic 20YYMMDD cell that is NOT a civil date.
+func hBadDateCell(tag string) string {
+	s := "20" + vr.Chars(tag, 6, "digit")
+	y, m, d := hAtoi(s[0:4]), hAtoi(s[4:6]), hAtoi(s[6:8])
+	vr.Assume(!vr.And(m >= 1, m <= 12, d >= 1, d <= hm_DaysIn(y, m)))
+	return s
+}
+
 func (d hDate) in(z *time.Location) time.Time {
 	return time.Date(d.y, time.Month(d.m), d.d, 0, 0, 0, 0, z)
 }
@@ -108,6 +116,32 @@ func Harness_C11_services() {
 		ex = append(ex, row)
 		exRows = append(exRows, []string{ids[row.svc], row.date.cell, row.typ})
 	}
+	// INVALID: one more row whose date has the YYYYMMDD shape but names no civil date (month 00/13+, day 00,
+	// or a day past the end of its month): it is not a valid row, so it contributes nothing.
+	// 1: such an exception row (type 1 or 2, either service, first or last); 2: such a calendar row (start or end date)
+	switch vr.Param("INVALID", 0) {
+	case 1:
+		bad := []string{ids[pick("bad.is_b")], hBadDateCell("bad.date"), vr.OneOf("bad.type", "1", "2")}
+		if vr.Bool("bad.first") {
+			exRows = append([][]string{bad}, exRows...)
+		} else {
+			exRows = append(exRows, bad)
+		}
+	case 2:
+		// a service id of its own: unique ids stay unique
+		bad := []string{"svbad", "1", "1", "1", "1", "1", "1", "1", "20240101", "20241231"}
+		if vr.Bool("bad.start") {
+			bad[8] = hBadDateCell("bad.date")
+		} else {
+			bad[9] = hBadDateCell("bad.date")
+		}
+		vr.Assume(ids[0] != "svbad" && ids[1] != "svbad")
+		if vr.Bool("bad.first") {
+			calRows = append([][]string{bad}, calRows...)
+		} else {
+			calRows = append(calRows, bad)
+		}
+	}
 	files["calendar.txt"] = vr.File{Name: "calendar.txt", Header: []string{"service_id", "monday", "tuesday", "wednesday", "thursday", "friday", "saturday", "sunday", "start_date", "end_date"}, Rows: calRows}
 	files["calendar_dates.txt"] = vr.File{Name: "calendar_dates.txt", Header: []string{"service_id", "date", "exception_type"}, Rows: exRows}
 	files["trips.txt"] = vr.File{Name: "trips.txt", Header: []string{"route_id", "service_id", "trip_id"}, Rows: [][]string{}}
@@ -115,6 +149,9 @@ func Harness_C11_services() {
 	r := hParse(files, ParseStaticOptions{})
 	if r == nil {
 		return
+	}
+	for k := range r.Services {
+		vr.Assert("C11.invalid_row_inert", r.Services[k].Id != "svbad")
 	}
 	for s := 0; s < 2; s++ {
 		hasCal := -1
